@@ -262,6 +262,14 @@ impl<T: El> Interp<T> {
           return Some(Out::Skip);
         }
         let before = bits(v);
+        // the conversions "neither free nor alter anything": the spare capacity is given a known content first and looked at
+        // again afterwards (its bytes belong to the buffer like the elements do)
+        let esz = core::mem::size_of::<T>();
+        let (l0, c0) = (v.len(), v.capacity());
+        let spare_bytes = c0.saturating_sub(l0) * esz;
+        if spare_bytes > 0 && spare_bytes <= (1 << 20) {
+          unsafe { core::ptr::write_bytes((v.as_mut_ptr() as *mut u8).add(l0 * esz), 0x5A, spare_bytes) };
+        }
         let old = self.take_vec(i);
         let parts = op == "raw_parts";
         let res = scoped(move || {
@@ -278,6 +286,12 @@ impl<T: El> Interp<T> {
         match res {
           Some((nv, l, c)) => {
             let after = bits(&nv);
+            let spare_changed = if after == before && spare_bytes > 0 && spare_bytes <= (1 << 20) && nv.len() == l0 && nv.capacity() == c0 {
+              let p = unsafe { (nv.as_ptr() as *const u8).add(l0 * esz) };
+              (0..spare_bytes).filter(|k| unsafe { *p.add(*k) } != 0x5A).count()
+            } else {
+              0
+            };
             self.slots[i].kind = Kind::Vec { p: Box::into_raw(Box::new(nv)), borrowed: false };
             if parts {
               tl!("= {} {}", l, c);
@@ -286,6 +300,8 @@ impl<T: El> Interp<T> {
             }
             if after != before {
               tl!("O rawparts {} handle moved by {} bytes", r, after.wrapping_sub(before) as isize);
+            } else if spare_changed > 0 {
+              tl!("O rawparts {} the round trip altered {} of the {} bytes of spare capacity", r, spare_changed, spare_bytes);
             }
             if parts { Out::Nums(vec![l as u64]) } else { Out::Unit }
           }
